@@ -213,6 +213,9 @@ OUTPUT_BUILTINS = {
     'object_file': "t = object_file(file='in.c')",
     'executable': "t = executable('prog', files=['in.c'])",
     'static_library': "t = static_library('lb', files=['in.c'])",
+    # every file of a versioned library (the real file, the soname link, the link name)
+    'versioned_shared_library': "t = shared_library('ver', files=['in.c'], version='1.2.3', soversion='1')",
+    'generated_source': "t = generated_source(file='in.l')",
 }
 
 
@@ -381,13 +384,18 @@ class ScriptTree(Bounded):
             files[(here + '/' if here else '') + 'build.bfg'] = 'submodule(%r)\n' % parts[i]
         files[d + '/in.txt'] = ''
         files[d + '/in.c'] = 'int main() { return 0; }\n'
+        files[d + '/in.l'] = ''
         files[d + '/build.bfg'] = (OUTPUT_BUILTINS[b] + '\n' +
-                                   'env.trace.append(("out", t.path.suffix, str(t.path.root)))\n')
+                                   'seen = [t] + list(t.creator.output)\n'
+                                   'for o in list(seen):\n'
+                                   '    seen += [getattr(o, k) for k in ("soname", "link", "runtime_file") if getattr(o, k, None) is not None]\n'
+                                   'for o in seen:\n'
+                                   '    env.trace.append(("out", o.path.suffix, str(o.path.root)))\n')
         trace = run_configure(files, [])
         if any(t[0] == 'FAILED' for t in trace):
             return self.fail(case, raw, 'configure_succeeds', error=[t[1] for t in trace if t[0] == 'FAILED'][0][-600:])
         out = [t for t in trace if t[0] == 'out']
-        if len(out) != 1 or out[0][2] != 'Root.builddir' or not out[0][1].startswith(d + '/'):
+        if not out or any(o[2] != 'Root.builddir' or not o[1].startswith(d + '/') for o in out):
             return self.fail(case, raw, 'output_path_in_the_matching_build_subdirectory', got=out)
         return True
 
